@@ -53,6 +53,12 @@ def run_py(cfg, hist) -> List[Any]:
         elif kind == "reset":
             emu._scheduler.reset(cycle_base=cyc)
             out.append({"next_mti": emu._scheduler.next_mti, "next_sti": emu._scheduler.next_sti, "cycle": cyc})
+        elif kind == "mreset":
+            # whole-machine reset: the cycle counter restarts at 0 and both timers are re-armed one period from there
+            emu.cycle_count = cyc
+            emu.reset()
+            cyc = 0
+            out.append({"next_mti": emu._scheduler.next_mti, "next_sti": emu._scheduler.next_sti, "cycle": cyc, "counter": int(emu.cycle_count)})
         elif kind in ("snap", "snap1"):
             # the real save_snapshot -> fresh emulator -> load_snapshot path
             import contextlib
@@ -85,6 +91,9 @@ def rs_req(cfg, hist):
             ops.append({"reset": cyc})
         elif ev[0] in ("snap", "snap1"):
             ops.append({"snap": cyc + (1 if ev[0] == "snap1" else 0)})
+        elif ev[0] == "mreset":
+            cyc = 0
+            ops.append({"reset": 0})        # the Rust timer has no machine around it here: re-arm at 0 (ISR is cleared by the next op)
         elif ev[0] == "clr":
             ops.append({"set_isr": 0})
     return {"cmd": "timer", "script": ops}
@@ -108,6 +117,12 @@ def run_ref(cfg, hist):
             out.append({"cycle": cyc})
         elif ev[0] in ("snap", "snap1"):
             out.append({"cycle": cyc, "next_mti": r.m.next() if r.m.active() else None, "next_sti": r.s.next() if r.s.active() else None})
+        elif ev[0] == "mreset":
+            cyc = 0
+            r.m.reset(0)
+            r.s.reset(0)
+            r.isr = 0
+            out.append({"cycle": 0, "next_mti": r.m.next() if r.m.active() else None, "next_sti": r.s.next() if r.s.active() else None, "mreset": True})
         elif ev[0] == "clr":
             r.isr = 0
             out.append({"cycle": cyc})
@@ -122,6 +137,12 @@ def judge(cfg, hist, py, rs, vb: VB):
     if rs is not None and rs_out is None:
         vb.add("C13/rust-error", f"rust harness: {rs}", wit)
     for i, ev in enumerate(hist):
+        if ev[0] == "mreset":
+            obs = py[i]
+            for t, nk in (("mti", "next_mti"), ("sti", "next_sti")):
+                if obs is not None and ref[i][nk] is not None and obs.get(nk) != ref[i][nk]:
+                    vb.add(f"C13/python/machine-reset-leaves-stale-target/{t}", f"python cfg={cfg}: after {hist[:i + 1]} the counter is "
+                           f"{obs.get('counter')} and {nk}={obs.get(nk)}; one period after the restart would be {ref[i][nk]}", wit)
         if ev[0] in ("snap", "snap1"):
             # restoring must bring back the saved targets (the states after it are merged with the unsnapshotted ones)
             for impl, obs in (("python", py[i]), ("rust", rs_out[i] if rs_out else None)):
@@ -230,7 +251,7 @@ def run(ctx) -> None:
     for cfg in cfgs:
         p = max(cfg[0], 1)
         gaps = sorted({1, 2, 3, 5, 8, 2 * p, 3 * p + 1})
-        jobs.append((cfg, gaps, ["reset", "snap", "snap1", "clr"], 14 if ctx.thorough else 9))
+        jobs.append((cfg, gaps, ["reset", "snap", "snap1", "clr", "mreset"], 14 if ctx.thorough else 9))
     clo = pmap(_closure, jobs)
     # default periods: directed gap sequences
     from pce500.emulator import MTI_PERIOD_CYCLES_DEFAULT as PM, STI_PERIOD_CYCLES_DEFAULT as PS
